@@ -6,6 +6,21 @@ with a search counter on the sub-optimizer; every returned tree is checked for c
 for being over the queried network, for carrying the stored sliced indices and for the stored
 score being its own score; entries shared by two different contractions must be equally valid
 for both.  Directories are re-opened by fresh optimizer objects and by fresh processes.
+
+Widened history operations and configurations:
+  update  opt.update_from_tree(tree, overwrite=False|True|'improved') - the user stores a tree of his own for a pool
+          member (random contraction order, for the hyper and random-greedy kinds possibly sliced): no search may run; the dict model
+          says whether the entry is created / replaced / kept (overwrite semantics of the docstring; a score tie may
+          go either way); a replaced entry must describe the SUPPLIED tree (same contraction tree, sliced indices,
+          score - the score from the independent cost model for the exact objectives); the next query for that
+          contraction through an overwrite=False optimizer is a hit without search returning exactly that tree; a
+          fresh object on the same directory (and the fresh process at the end) reads the same entry
+  cleanup opt.cleanup() in the middle of a history: it must return (every directory layout), afterwards every
+          contraction stored so far is missing for this object AND for a fresh cache_only optimizer on the directory
+          (KeyError: no entry file survives, nothing stale can be served "across processes"); the model is emptied
+          and every oracle keeps deciding the queries that follow (fresh-object agreement on each of the next three)
+  auto    directory=True in a scratch working directory: an optimizer with EQUAL options (dict options built in
+          another key order) finds the stored answer, one that differs in a single path-relevant option does not
 """
 
 import json
@@ -30,14 +45,27 @@ RULE = (
     "changed, relabelled, extra unused size_dict entry) queried 6-20 times in random order through one reusable "
     "optimizer x {hyper, random-greedy, hyper-compressed (chi 2/4/8)} x hash_method {a,b} x directory {None, path} x directory_split x overwrite "
     "{False, True, 'improved'} x cache_only, slicing options on; re-opened by fresh objects and fresh processes; "
-    "distinct = distinct (pool, configuration, query sequence); non-trivial = >=1 hit on an entry"
+    "distinct = distinct (pool, configuration, query sequence); non-trivial = >=1 hit on an entry. Widened (from a derived "
+    "generator): update_from_tree steps (overwrite False/True/'improved', sliced trees for the hyper and random-greedy kinds) each followed by a "
+    "query of the same contraction, cleanup() steps, an update through a cache_only optimizer, and per case with p=0.25 the "
+    "directory=True scenario (same options / one path-relevant option changed, both reusable classes + compressed)"
 )
 ASSUMPTIONS = [
     "the stored entry is read through the optimizer's own DiskDict (opt._cache[h]) - there is no public accessor",
     "'equally valid' = path well-formed for the query, stored sliced indices exist in it, stored score == recomputed score",
+    "a tree handed to update_from_tree carries the optimizer's objective as its default objective (the docstring compares scores "
+    "'based on default objective of the tree'); its stored score is then in the tree's unit (for the random-greedy kind that is "
+    "NOT the log10(flops) unit of searched entries - modelled per entry, see FINDINGS_widen-d.md)",
+    "which options are 'path relevant' is the library's documented list; the changed option is always one of max_repeats, "
+    "minimize/chi, methods, slicing_opts, reconf_opts, max_time (hyper) and max_repeats, temperature, costmod (random-greedy)",
+    "sliced trees are handed to the hyper and the random-greedy kind; the compressed kind has no slicing",
+    "cleanup(): 'the stored answers are gone' = this object reports every previously stored contraction missing and a fresh "
+    "cache_only optimizer on the directory raises KeyError for it (no entry file survives)",
 ]
 REQUIRED_MONITORS = ["queries", "hits", "misses", "repeat_same_order", "tree_of_query", "sliced_as_stored", "score_as_stored",
-                     "sharing_events", "permuted_share", "fresh_object_reload", "fresh_process_reload", "cache_only", "improved_monotone", "compressed_answers"]
+                     "sharing_events", "permuted_share", "fresh_object_reload", "fresh_process_reload", "cache_only", "improved_monotone", "compressed_answers",
+                     "update_ops", "update_stored_as_supplied", "update_kept_old", "update_then_hit", "update_fresh_object", "update_sliced",
+                     "update_cache_only", "cleanup_ops", "cleanup_forgets", "post_cleanup_queries", "auto_dir_same_options_share", "auto_dir_other_options_separate"]
 SHARD_TIMEOUT = {"quick": 500, "thorough": 3600}
 
 
@@ -123,16 +151,22 @@ def topo(net):
 # ------------------------------ optimizers ---------------------------------- #
 
 
-def make_opt(cfg, directory, counter):
+def make_opt(cfg, directory, counter, extra=None, reverse_dicts=False):
     kw = dict(directory=directory, overwrite=cfg["overwrite"], hash_method=cfg["hash_method"], cache_only=cfg["cache_only"], directory_split=cfg["directory_split"])
+    kw.update(extra or {})
     if cfg["kind"] == "hyper":
+        so = {"target_size": cfg["target_size"], "max_repeats": 2} if cfg["slicing"] else None
+        if so and reverse_dicts:
+            so = dict(reversed(list(so.items())))   # an equal dict built in another key order
+        kw.setdefault("methods", ["greedy"])
         opt = ctg.ReusableHyperOptimizer(
-            methods=["greedy"], max_repeats=cfg["max_repeats"], parallel=False, optlib="random", seed=cfg["seed"], minimize=cfg["minimize"],
-            slicing_opts={"target_size": cfg["target_size"], "max_repeats": 2} if cfg["slicing"] else None, progbar=False, **kw,
+            max_repeats=cfg["max_repeats"], parallel=False, optlib="random", seed=cfg["seed"], minimize=cfg["minimize"],
+            slicing_opts=so, progbar=False, **kw,
         )
     elif cfg["kind"] == "hyper-compressed":
+        kw.setdefault("methods", ["greedy-compressed"])
         opt = ctg.ReusableHyperCompressedOptimizer(
-            chi=cfg["chi"], methods=["greedy-compressed"], max_repeats=cfg["max_repeats"], parallel=False, optlib="random", seed=cfg["seed"], progbar=False, **kw,
+            chi=cfg["chi"], max_repeats=cfg["max_repeats"], parallel=False, optlib="random", seed=cfg["seed"], progbar=False, **kw,
         )
     else:
         opt = ReusableRandomGreedyOptimizer(max_repeats=cfg["max_repeats"], seed=cfg["seed"], parallel=False, **kw)
@@ -146,7 +180,10 @@ def make_opt(cfg, directory, counter):
     return opt
 
 
-def recomputed_score(cfg, tree):
+def recomputed_score(cfg, tree, origin=None):
+    if cfg["kind"] == "rg" and origin == "update":
+        # an entry stored by update_from_tree carries the supplied tree's own (default objective) score
+        return tree.get_score("flops")
     if cfg["kind"] == "hyper":
         return tree.get_score(cfg["minimize"])
     if cfg["kind"] == "hyper-compressed":
@@ -192,7 +229,202 @@ def fresh_process(cfg, queries, directory):
     raise RuntimeError("fresh process failed: " + p.stderr[-500:])
 
 
+
+# ------------------------ update_from_tree / cleanup / directory=True -------- #
+
+
+def nodes_of(n, path, ssa=False):
+    """the set of intermediates a path builds = the contraction tree it describes (vf/ref.py, no cotengra)"""
+    return set(ref.path_to_nodes(n, [tuple(p) for p in path], ssa=ssa))
+
+
+def user_tree(cfg, net, op, case_seed, step):
+    """the tree a user hands to update_from_tree -> (tree, nodes it consists of, sliced indices, expected score)"""
+    import math
+
+    r = rng_for(case_seed, "update", step)
+    ssa = gen.random_ssa(r, net.N)
+    if cfg["kind"] == "hyper-compressed":
+        from cotengra.core import ContractionTreeCompressed
+
+        objective = f"peak-compressed-{cfg['chi']}"
+        tree = ContractionTreeCompressed.from_path(net.inputs, net.output, net.size_dict, ssa_path=[tuple(p) for p in ssa], objective=objective)
+        # reference score: the same contraction order rebuilt once more (a second object, the compressed cost model is the library's)
+        twin = ContractionTreeCompressed.from_path(net.inputs, net.output, net.size_dict, ssa_path=[tuple(p) for p in ssa])
+        return tree, nodes_of(net.N, ssa, ssa=True), [], twin.get_score(objective)
+    objective = cfg["minimize"] if cfg["kind"] == "hyper" else "flops"
+    tree = ct.make_tree(net, ssa, objective=objective)
+    sliced = []
+    # sliced trees for both exact kinds (F-C14-1 of FINDINGS_widen-d.md - the random-greedy kind ignored the stored
+    # sliced indices on a hit - is repaired in /repo by 2225b09)
+    if op.get("slice"):
+        cands = sorted({ix for t in net.inputs for ix in t})
+        for ix in r.sample(cands, min(len(cands), r.randint(1, 2))):
+            tree.remove_ind_(ix)
+            sliced.append(ix)
+    m = ct.costs_of(tree)
+    F, W, S = m.total_flops(), m.total_write(), m.max_size()
+    if objective == "flops":
+        score = math.log2(F) + 1e-3 * math.log2(W) + 1e-3 * math.log2(S)
+    elif objective == "size":
+        score = 1e-3 * math.log2(F) + 1e-3 * math.log2(W) + math.log2(S)
+    else:
+        score = math.log2(F + 64 * W)
+    return tree, nodes_of(net.N, ssa, ssa=True), sliced, score
+
+
+def same_score(a, b):
+    return abs(a - b) <= 1e-9 * max(1.0, abs(b))
+
+
+AUTO_VARIANTS = {
+    "hyper": ("max_repeats", "minimize", "methods", "slicing_opts", "reconf_opts", "max_time"),
+    "hyper-compressed": ("max_repeats", "chi", "methods", "reconf_opts"),
+    "rg": ("max_repeats", "temperature", "costmod"),
+}
+
+
+def variant(cfg, which):
+    """-> (cfg, extra kwargs) of an optimizer that differs from ``cfg`` in exactly one path-relevant option"""
+    if which == "max_repeats":
+        return dict(cfg, max_repeats=cfg["max_repeats"] + 1), {}
+    if which == "minimize":
+        return dict(cfg, minimize={"flops": "size", "size": "combo", "combo": "flops"}[cfg["minimize"]]), {}
+    if which == "chi":
+        return dict(cfg, chi={2: 4, 4: 8, 8: 2}[cfg["chi"]]), {}
+    if which == "methods":
+        return cfg, {"methods": ["greedy-compressed", "greedy-span"] if cfg["kind"] == "hyper-compressed" else ["greedy", "labels"]}
+    if which == "slicing_opts":
+        return dict(cfg, slicing=True, target_size=cfg["target_size"] * 2 if cfg["slicing"] else cfg["target_size"]), {}
+    if which == "reconf_opts":
+        return cfg, {"reconf_opts": {"window_size": 4} if cfg["kind"] == "hyper-compressed" else {"subtree_size": 4}}
+    if which == "max_time":
+        return cfg, {"max_time": "rate:1e9"}
+    if which == "temperature":
+        return cfg, {"temperature": (0.01, 1.0)}
+    if which == "costmod":
+        return cfg, {"costmod": (0.5, 2.0)}
+    raise ValueError(which)
+
+
+def auto_directory_check(rep, case):
+    """directory=True: the directory is derived from the path-relevant options.  Run inside a scratch working
+    directory (the auto directory is relative to the cwd)."""
+    spec = case["auto_dir"]
+    cfg = dict(case["cfg"], cache_only=False, overwrite=False)
+    net = gen.Net.from_json(case["pool"][0][1])
+    scratch = tempfile.mkdtemp(prefix="vf-c14-cwd-", dir="/var/tmp")
+    here = os.getcwd()
+    os.chdir(scratch)
+    try:
+        import random
+
+        random.seed(case["case_seed"])
+        ca = {"searches": 0}
+        a = make_opt(cfg, True, ca)
+        ta = a.search(net.inputs, net.output, net.size_dict)
+        if not os.path.isdir(os.path.join(scratch, "ctg_cache")):
+            return ("auto_dir", 0, "directory=True did not create ctg_cache/ in the working directory", {})
+        # equal options (dict-valued ones built in another key order), another object: must find the answer
+        cb = {"searches": 0}
+        b = make_opt(dict(cfg, cache_only=True), True, cb, reverse_dicts=True)
+        rep.mon("auto_dir_same_options_share")
+        try:
+            tb = b.search(net.inputs, net.output, net.size_dict)
+        except KeyError:
+            return ("auto_dir_not_shared", 0, f"directory=True: a second {cfg['kind']} optimizer with equal options does not find the stored answer (directories {sorted(os.listdir('ctg_cache'))})", {})
+        if cb["searches"] or nodes_of(net.N, tb.get_path()) != nodes_of(net.N, ta.get_path()):
+            return ("auto_dir_not_shared", 0, "directory=True: the optimizer with equal options searched again / returned another tree", {})
+        # one path-relevant option changed: must NOT be answered from the first optimizer's directory
+        cfg_c, extra = variant(cfg, spec["variant"])
+        cc = {"searches": 0}
+        c = make_opt(dict(cfg_c, cache_only=True), True, cc, extra=extra)
+        rep.mon("auto_dir_other_options_separate")
+        rep.count("auto_dir_variant", f"{cfg['kind']}|{spec['variant']}")
+        try:
+            c.search(net.inputs, net.output, net.size_dict)
+        except KeyError:
+            return None
+        return ("auto_dir_shared_across_options", 0, f"directory=True: a {cfg['kind']} optimizer that differs in the path-relevant option {spec['variant']!r} was answered from the other optimizer's cache (directories {sorted(os.listdir('ctg_cache'))})", {})
+    finally:
+        os.chdir(here)
+        shutil.rmtree(scratch, ignore_errors=True)
+
+
 # --------------------------------- one history ------------------------------- #
+
+
+def update_step(rep, case, cfg, opt, counter, directory, step, qi, tag, net, op,
+                creators, stored_scores, known_exact, hk_of_exact, h_of, origin, pending, forget):
+    """one ``opt.update_from_tree(tree, overwrite=...)`` against the dict model"""
+    where = f"step {step}: update_from_tree for {qi} ({tag}), overwrite={op['overwrite']!r}"
+    rep.mon("update_ops")
+    tree, nodes, sliced, score = user_tree(cfg, net, op, case["case_seed"], step)
+    h, missing = opt.hash_query(net.inputs, net.output, net.size_dict)
+    hk = repr(h)
+    h_of[hk] = h
+    ek = exact_key(net)
+    old_con = None if missing else dict(opt._cache[h])
+    before = counter["searches"]
+    try:
+        opt.update_from_tree(tree, overwrite=op["overwrite"])
+    except Exception as e:
+        return ("raises", step, f"{where}: {type(e).__name__}: {e} | {traceback.format_exc()[-400:]}", {})
+    if counter["searches"] != before:
+        return ("update_searched", step, f"{where}: a search ran", {})
+    _, missing2 = opt.hash_query(net.inputs, net.output, net.size_dict)
+    if missing2:
+        return ("update_not_stored", step, f"{where}: the contraction is still missing afterwards", {})
+    con = dict(opt._cache[h])
+    ow = op["overwrite"]
+    if missing or ow is True:
+        expect = "new"
+    elif ow == "improved":
+        expect = "either" if same_score(score, old_con["score"]) else "new" if score < old_con["score"] else "old"
+    else:
+        expect = "old"
+    rep.count("update", f"{cfg['kind']}|ow={ow}|{'missing' if missing else 'present'}|expect={expect}|sliced={bool(sliced)}")
+
+    def is_supplied(c):
+        return nodes_of(net.N, c["path"]) == nodes and set(c["sliced_inds"]) == set(sliced) and same_score(c["score"], score)
+
+    if expect == "new":
+        rep.mon("update_stored_as_supplied")
+        if not is_supplied(con):
+            what = "another contraction tree" if nodes_of(net.N, con["path"]) != nodes else f"sliced indices {tuple(con['sliced_inds'])} (supplied: {sliced})" if set(con["sliced_inds"]) != set(sliced) else f"score {con['score']} (supplied tree: {score})"
+            kept = " - the old entry was kept" if old_con is not None and con == old_con else ""
+            return ("update_not_stored_as_supplied", step, f"{where}: the entry must now describe the supplied tree but holds {what}{kept}", {})
+    elif expect == "old":
+        rep.mon("update_kept_old")
+        if con != old_con:
+            return ("update_overwrote", step, f"{where}: the stored entry (score {old_con['score']}) was replaced by the supplied tree (score {score})", {})
+    if old_con is None or con != old_con:
+        # the entry is now the user's
+        forget(hk, keep_ek=ek)
+        creators[hk] = net
+        origin[hk] = "update"
+        if ow is True:
+            stored_scores[hk] = [con["score"]]   # an explicit overwrite may make the stored score worse
+        else:
+            stored_scores.setdefault(hk, []).append(con["score"])
+        known_exact[ek] = tuple(map(tuple, con["path"]))
+        hk_of_exact[ek] = hk
+    if is_supplied(con):
+        pending[ek] = {"hk": hk, "nodes": nodes, "sliced": set(sliced), "score": score}
+    else:
+        pending.pop(ek, None)
+    if directory:
+        # a fresh object on the same directory reads the same entry
+        c2 = {"searches": 0}
+        o2 = make_opt(dict(cfg, cache_only=True, overwrite=False), directory, c2)
+        try:
+            t2 = o2.search(net.inputs, net.output, net.size_dict)
+        except Exception as e:
+            return ("reload", step, f"{where}: a fresh optimizer on the same directory cannot answer the contraction: {type(e).__name__}: {e}", {})
+        rep.mon("update_fresh_object")
+        if nodes_of(net.N, t2.get_path()) != nodes_of(net.N, con["path"]) or set(t2.sliced_inds) != set(con["sliced_inds"]):
+            return ("reload", step, f"{where}: a fresh optimizer on the same directory reconstructs a different tree from the entry", {})
+    return None
 
 
 def run_history(rep, case, workdir):
@@ -208,11 +440,67 @@ def run_history(rep, case, workdir):
     creators = {}   # library key -> exact network that created / last overwrote the entry
     stored_scores = {}  # library key -> list of stored scores over time
     known_exact = {}  # exact network -> path returned last time
+    hk_of_exact = {}  # exact network -> library key it was answered under
+    h_of = {}         # repr(library key) -> library key
+    origin = {}       # library key -> "search" | "update": who wrote the entry (the unit of its score for the rg kind)
+    pending = {}      # exact network -> what update_from_tree just stored for it (nodes, sliced, key)
+    ops = case.get("ops") or {}
+    post_cleanup = 0
+    cleaned = False
+
+    def forget(hk_, keep_ek=None):
+        for ek_ in [e_ for e_, k_ in hk_of_exact.items() if k_ == hk_]:
+            known_exact.pop(ek_, None)
+            hk_of_exact.pop(ek_, None)
+        for ek_ in [e_ for e_, pu_ in pending.items() if pu_["hk"] == hk_ and e_ != keep_ek]:
+            pending.pop(ek_, None)
+
     for step, qi in enumerate(case["queries"]):
         tag, net = pool[qi]
+        op = ops.get(str(step))
+        if op and op["op"] == "cleanup":
+            # the user empties the cache in the middle of the history
+            rep.mon("cleanup_ops")
+            stored = [(hk_, h_of[hk_], n_) for hk_, n_ in creators.items() if hk_ in h_of and h_of[hk_] in opt._cache]
+            try:
+                opt.cleanup()
+            except Exception as e:
+                return ("cleanup_raises", step, f"step {step}: cleanup() raised {type(e).__name__}: {e} (directory={bool(directory)}, directory_split={opt.directory_split})", {})
+            rep.count("cleanup", f"returned|dir={bool(directory)}|split={opt.directory_split}|stored={min(len(stored), 3)}")
+            for hk_, h_, n_ in stored:
+                rep.mon("cleanup_forgets")
+                if not opt.hash_query(n_.inputs, n_.output, n_.size_dict)[1]:
+                    return ("cleanup_keeps_entry", step, f"step {step}: after cleanup() the optimizer still reports a stored contraction present", {})
+                if directory:
+                    c2 = {"searches": 0}
+                    o2 = make_opt(dict(cfg, cache_only=True, overwrite=False), directory, c2)
+                    try:
+                        o2.search(n_.inputs, n_.output, n_.size_dict)
+                    except KeyError:
+                        continue
+                    except Exception as e:
+                        return ("cleanup_keeps_entry", step, f"step {step}: after cleanup() a fresh cache_only optimizer on the directory fails with {type(e).__name__}: {e}", {})
+                    return ("cleanup_keeps_entry", step, f"step {step}: after cleanup() a fresh cache_only optimizer on the directory still answers a previously stored contraction (entry files survive: {sorted(os.listdir(directory))[:4]})", {})
+            creators.clear()
+            stored_scores.clear()
+            origin.clear()
+            known_exact.clear()
+            hk_of_exact.clear()
+            pending.clear()
+            post_cleanup = 3
+            cleaned = True
+        if op and op["op"] == "update":
+            bad = update_step(rep, case, cfg, opt, counter, directory, step, qi, tag, net, op,
+                              creators, stored_scores, known_exact, hk_of_exact, h_of, origin, pending, forget)
+            if bad:
+                return bad
+            continue
         rep.mon("queries")
+        if cleaned:
+            rep.mon("post_cleanup_queries")
         h, missing = opt.hash_query(net.inputs, net.output, net.size_dict)
         hk = repr(h)
+        h_of[hk] = h
         before = counter["searches"]
         where = f"step {step}: query {qi} ({tag})"
         try:
@@ -250,6 +538,20 @@ def run_history(rep, case, workdir):
         except Exception as e:
             return ("raises", step, f"{where}: {type(e).__name__}: {e} | {traceback.format_exc()[-400:]}", detail)
         searched = counter["searches"] - before
+        # the query that follows an update_from_tree for this very contraction: a hit, answering with the supplied tree
+        pu = pending.pop(exact_key(net), None)
+        if pu is not None and pu["hk"] == hk and cfg["overwrite"] is False:
+            rep.mon("update_then_hit")
+            if pu["sliced"]:
+                rep.mon("update_sliced")
+            if missing or searched:
+                return ("update_not_hit", step, f"{where}: the contraction was stored by update_from_tree but the query {'missed' if missing else 'searched again'}", detail)
+            if nodes_of(net.N, path) != pu["nodes"]:
+                return ("update_hit_other_tree", step, f"{where}: the hit after update_from_tree does not return the supplied tree's contraction order", detail)
+            if tree is not None and set(tree.sliced_inds) != pu["sliced"]:
+                return ("update_hit_other_tree", step, f"{where}: the hit after update_from_tree is sliced on {tuple(tree.sliced_inds)}, the supplied tree on {sorted(pu['sliced'])}", detail)
+            if tree is not None and not same_score(recomputed_score(cfg, tree, "update"), pu["score"]):
+                return ("update_hit_other_tree", step, f"{where}: the hit after update_from_tree scores {recomputed_score(cfg, tree, 'update')}, the supplied tree {pu['score']}", detail)
         if cfg["cache_only"]:
             rep.mon("cache_only")
             if searched:
@@ -288,7 +590,8 @@ def run_history(rep, case, workdir):
             if any(ix not in net.size_dict or not any(ix in t for t in net.inputs) for ix in con["sliced_inds"]):
                 return ("sharing_invalid", step, f"{where}: stored sliced indices {con['sliced_inds']} are not indices of the query", detail)
             rep.mon("score_as_stored")
-            rs = recomputed_score(cfg, tree)
+            replaced_now = missing or old_con is None or dict(con) != old_con
+            rs = recomputed_score(cfg, tree, "search" if replaced_now else origin.get(hk))
             if abs(rs - con["score"]) > 1e-9 * max(1.0, abs(rs)):
                 return ("score_as_stored", step, f"{where}: stored score {con['score']} but the returned tree scores {rs}", detail)
         # repeated exact query, overwrite=False: same contraction order
@@ -298,9 +601,11 @@ def run_history(rep, case, workdir):
             if tuple(map(tuple, path)) != known_exact[ek]:
                 return ("order_changed", step, f"{where}: repeated query returned a different contraction order", detail)
         known_exact[ek] = tuple(map(tuple, path))
+        hk_of_exact[ek] = hk
         if missing or old_con is None or dict(con) != old_con:
             # the entry was created or replaced by this query
             creators[hk] = net
+            origin[hk] = "search"
         hist = stored_scores.setdefault(hk, [])
         hist.append(con["score"])
         if cfg["overwrite"] == "improved" and len(hist) >= 2:
@@ -309,7 +614,8 @@ def run_history(rep, case, workdir):
                 return ("improved_got_worse", step, f"{where}: stored score went from {hist[-2]} to {hist[-1]} under overwrite='improved'", detail)
 
         # re-open the directory
-        if directory and step % 3 == 2:
+        if directory and (step % 3 == 2 or post_cleanup > 0):
+            post_cleanup -= 1
             c2 = {"searches": 0}
             cfg2 = dict(cfg, cache_only=True, overwrite=False)
             o2 = make_opt(cfg2, directory, c2)
@@ -366,16 +672,40 @@ def gen_case(rng, cs, tier):
         cfg["slicing"] = False
     nq = rng.randint(6, budget(tier, 14, 20))
     queries = [rng.randrange(len(pool)) for _ in range(nq)]
-    return {
+    case = {
         "pool": [(t, n.to_json()) for t, n in pool], "cfg": cfg, "queries": queries, "api": [rng.choice(["search", "search", "call"]) for _ in range(4)],
         "fresh_process": cfg["directory"] and rng.random() < budget(tier, 0.15, 0.4), "case_seed": cs,
     }
+    widen(case, cs)
+    return case
+
+
+def widen(case, cs):
+    """the widened history operations / scenarios, from a generator of their own"""
+    rw = rng_for(cs, "widen")
+    queries = case["queries"]
+    ops = {}
+    for step in range(len(queries) - 1):
+        u = rw.random()
+        if u < 0.10:
+            ops[str(step)] = {"op": "update", "overwrite": rw.choice([False, True, "improved", "improved"]), "slice": rw.random() < 0.4}
+            if rw.random() < 0.8:
+                queries[step + 1] = queries[step]   # ... and then asks for that contraction
+        elif u < 0.125:
+            ops[str(step)] = {"op": "cleanup"}
+    case["ops"] = ops
+    if case["cfg"]["directory"] and rw.random() < 0.5:
+        case["co_update"] = {"qi": rw.randrange(len(case["pool"])), "slice": rw.random() < 0.4}
+    if rw.random() < 0.25:
+        case["auto_dir"] = {"variant": rw.choice(AUTO_VARIANTS[case["cfg"]["kind"]])}
 
 
 def run_case(rep, case):
     workdir = tempfile.mkdtemp(prefix="vf-c14-", dir="/var/tmp")
     try:
         res = run_history(rep, case, workdir)
+        if res is None and case.get("auto_dir"):
+            res = auto_directory_check(rep, case)
         if res is None and case["cfg"]["directory"]:
             # second phase: cache_only over the same directory with a new object
             case2 = dict(case, cfg=dict(case["cfg"], cache_only=True, overwrite=False), fresh_process=False)
@@ -391,6 +721,19 @@ def run_history_existing(rep, case, workdir):
     pool = [(tag, gen.Net.from_json(j)) for tag, j in case["pool"]]
     counter = {"searches": 0}
     opt = make_opt(cfg, os.path.join(workdir, "cache"), counter)
+    supplied = None
+    cu = case.get("co_update")
+    if cu:
+        # update_from_tree through a cache_only optimizer: stored without a search, answered from then on
+        tag, net = pool[cu["qi"]]
+        tree, nodes, sliced, score = user_tree(cfg, net, {"slice": cu["slice"]}, case["case_seed"], "cache_only")
+        try:
+            opt.update_from_tree(tree, overwrite=True)
+        except Exception as e:
+            return ("raises", cu["qi"], f"cache_only pass: update_from_tree for {tag}: {type(e).__name__}: {e}", {})
+        if counter["searches"]:
+            return ("cache_only_searched", cu["qi"], f"cache_only pass: update_from_tree for {tag} ran a search", {})
+        supplied = (cu["qi"], nodes, set(sliced))
     for qi, (tag, net) in enumerate(pool):
         h, missing = opt.hash_query(net.inputs, net.output, net.size_dict)
         try:
@@ -400,8 +743,12 @@ def run_history_existing(rep, case, workdir):
             m = ref.check_tree_struct(net.N, ct.children_of(tree))
             if m:
                 return ("tree_incomplete", qi, f"cache_only pass: {tag}: {m}", {})
+            if supplied and supplied[0] == qi:
+                rep.mon("update_cache_only")
+                if nodes_of(net.N, tree.get_path()) != supplied[1] or set(tree.sliced_inds) != supplied[2]:
+                    return ("update_hit_other_tree", qi, f"cache_only pass: {tag} was stored by update_from_tree(overwrite=True) but the hit is another tree / slicing", {})
         except KeyError:
-            if not missing:
+            if not missing or (supplied and supplied[0] == qi):
                 return ("raises", qi, f"cache_only pass: {tag} is stored but KeyError was raised", {})
         rep.mon("cache_only")
         if counter["searches"]:
@@ -411,7 +758,7 @@ def run_history_existing(rep, case, workdir):
 
 def run_shard(rep, tier, seed, shard, nshards):
     dl = Deadline(budget(tier, 50, 600))
-    for k in range(budget(tier, 120, 3000)):
+    for k in range(budget(tier, 300, 3000)):
         if dl.expired():
             break
         cs = f"{seed}/C14/{shard}/{k}"
@@ -419,14 +766,25 @@ def run_shard(rep, tier, seed, shard, nshards):
         if k == 0:
             case["cfg"].update(directory=True)
             case["fresh_process"] = True
+        elif k == 1:
+            # every shard runs the directory=True scenario and a history with update / cleanup steps
+            kind = case["cfg"]["kind"]
+            case["auto_dir"] = {"variant": AUTO_VARIANTS[kind][(shard // 3) % len(AUTO_VARIANTS[kind])]}
+            case["cfg"].update(directory=True, directory_split=(False, True, "auto")[shard % 3], overwrite=False)
+            case["co_update"] = {"qi": 0, "slice": True}
+            n = len(case["queries"])
+            case["queries"][1] = case["queries"][0]
+            case["queries"][4] = case["queries"][3]
+            case["ops"] = {"0": {"op": "update", "overwrite": True, "slice": True}, "2": {"op": "cleanup"}, "3": {"op": "update", "overwrite": "improved", "slice": False}}
         try:
             res = run_case(rep, case)
         except Exception as e:
             rep.inconclusive_case(f"harness: {type(e).__name__}: {e} | {traceback.format_exc()[-500:]}")
             continue
         tags = [t for t, _ in case["pool"]]
-        rep.case((repr(case["pool"]), repr(sorted(case["cfg"].items(), key=str)), tuple(case["queries"])), len(set(case["queries"])) < len(case["queries"]), case["cfg"]["kind"],
-                 sample={"pool_tags": tags, "cfg": case["cfg"], "queries": case["queries"]})
+        rep.case((repr(case["pool"]), repr(sorted(case["cfg"].items(), key=str)), tuple(case["queries"]), repr(sorted(case.get("ops", {}).items())), repr(case.get("auto_dir"))),
+                 len(set(case["queries"])) < len(case["queries"]), case["cfg"]["kind"],
+                 sample={"pool_tags": tags, "cfg": case["cfg"], "queries": case["queries"], "ops": case.get("ops"), "auto_dir": case.get("auto_dir"), "co_update": case.get("co_update")})
         rep.count("config", f"{case['cfg']['kind']}|{case['cfg']['hash_method']}|dir={case['cfg']['directory']}|split={case['cfg']['directory_split']}|ow={case['cfg']['overwrite']}")
         if res:
             w = dict(case)
